@@ -7,7 +7,7 @@
    predicates of gen/props/c14.py only): buffered CFB = block CFB = one-shot CFB as theorems about
    Plumbing.async_inout / buf_apply; the CS3 exchange of the last two blocks on whole-block messages. *)
 From BM Require Import BlockModes Spec BlockModes_proofs Plumbing Toy Ints Ctr Belt Stream Cts Stream_proofs Cts_proofs
-  Interp Interp_proofs Wrapper_proofs Wrapper_inst.
+  Interp Interp_proofs Wrapper_proofs Wrapper_inst Outcome Buf_proofs.
 
 (* OFB: three of the four front-ends at block level *)
 Theorem C14_ofb_frontends : forall (C : cipher) iv c,
@@ -79,3 +79,19 @@ Proof.
   intros bs w dm s rs id k key iv h1 h2 Hk Hiv. cbn [step]. rewrite Hk, Hiv, !Nat.eqb_refl. reflexivity.
 Qed.
 Print Assumptions C14_construction_routes.
+
+(* buffered CFB = block-level CFB on whole blocks: both produce concat (cfb_*_spec), the block-level
+   statement being Props/C03.v C03_cfb_enc / C03_cfb_dec *)
+Theorem C14_buffered_vs_block_cfb : forall (C : cipher), (forall x, length x = c_bs C -> length (c_E C x) = c_bs C) -> 0 < c_bs C ->
+  forall sched iv cs, length iv = c_bs C -> all_len (c_bs C) (map rd_in cs) -> sched_total sched = length cs ->
+  exists st', buf_apply C true (buf_init C iv) (concat (map rd_in cs)) =
+    Ok (st', concat (map cout (snd (run_sched (cfb_enc_block C) cfb_enc_w (cfb_enc_par C) (cfb_init C iv) sched cs)))).
+Proof.
+  intros C HE Hb sched iv cs Hiv Hall Hs.
+  destruct (buf_enc_spec C HE Hb iv (map rd_in cs) [] Hiv Hall Hb) as (st' & E1).
+  exists st'. rewrite app_nil_r in E1. rewrite E1. f_equal. f_equal. cbn [xorb]. rewrite app_nil_r.
+  unfold cfb_init. rewrite cfb_enc_sched by auto. cbn [snd]. rewrite <- cfb_enc_spec_st.
+  rewrite map_cout_map2_wr_out; [reflexivity|]. rewrite cfb_enc_spec_st. clear.
+  generalize (c_E C iv). induction cs as [|c cs IH]; intros s; simpl; auto.
+Qed.
+Print Assumptions C14_buffered_vs_block_cfb.
